@@ -1,1 +1,692 @@
-//! (stub)
+//! Reference model of DWARF attribute forms (DESIGN.md Appendix A.2), written from the
+//! DWARF 2-5 standard (section 7.5) plus the GNU extension forms, independently of gimli.
+//!
+//! Contents
+//! * numeric `DW_FORM_*` / `DW_AT_*` constants (own table, cross-checked against gimli's
+//!   names at run time by the property modules, never used to *decode* through gimli);
+//! * `layout(form, enc)`: how a form is laid out in a DIE (`Layout`), `fixed_size` (the
+//!   "fixed-size table"), `class(form, name, enc)`: the value class a form decodes to,
+//!   including the version-2 `ref_addr` size and the legacy data4/data8 section-offset rule;
+//! * `MVal` / `Pay`: model values (class + payload) and `Expect` (value or rejection);
+//! * `model_udata`, `model_sdata`, ...: what the numeric accessors must answer;
+//! * `norm_variant`: the variant `Attribute::value()` is expected to produce (secondary:
+//!   the property only fixes the payload);
+//! * observation glue at the end (`observe`): maps a `gimli::AttributeValue` onto the
+//!   model's vocabulary (variant name, class, payload).  It contains no decoding logic.
+//!
+//! Pinned choices (the standard is silent; compared as stated in the property modules):
+//! * every form is decoded by its own definition in every unit version (a DWARF 5 form in a
+//!   version 2 unit is not an error);
+//! * `DW_FORM_implicit_const` reached through `DW_FORM_indirect` is rejected;
+//! * `DW_FORM_flag` is true for every non-zero byte.
+
+use crate::asm::Enc;
+
+// ------------------------------------------------------------------ form codes (DWARF 5 table 7.6)
+pub const F_ADDR: u16 = 0x01;
+pub const F_BLOCK2: u16 = 0x03;
+pub const F_BLOCK4: u16 = 0x04;
+pub const F_DATA2: u16 = 0x05;
+pub const F_DATA4: u16 = 0x06;
+pub const F_DATA8: u16 = 0x07;
+pub const F_STRING: u16 = 0x08;
+pub const F_BLOCK: u16 = 0x09;
+pub const F_BLOCK1: u16 = 0x0a;
+pub const F_DATA1: u16 = 0x0b;
+pub const F_FLAG: u16 = 0x0c;
+pub const F_SDATA: u16 = 0x0d;
+pub const F_STRP: u16 = 0x0e;
+pub const F_UDATA: u16 = 0x0f;
+pub const F_REF_ADDR: u16 = 0x10;
+pub const F_REF1: u16 = 0x11;
+pub const F_REF2: u16 = 0x12;
+pub const F_REF4: u16 = 0x13;
+pub const F_REF8: u16 = 0x14;
+pub const F_REF_UDATA: u16 = 0x15;
+pub const F_INDIRECT: u16 = 0x16;
+pub const F_SEC_OFFSET: u16 = 0x17;
+pub const F_EXPRLOC: u16 = 0x18;
+pub const F_FLAG_PRESENT: u16 = 0x19;
+pub const F_STRX: u16 = 0x1a;
+pub const F_ADDRX: u16 = 0x1b;
+pub const F_REF_SUP4: u16 = 0x1c;
+pub const F_STRP_SUP: u16 = 0x1d;
+pub const F_DATA16: u16 = 0x1e;
+pub const F_LINE_STRP: u16 = 0x1f;
+pub const F_REF_SIG8: u16 = 0x20;
+pub const F_IMPLICIT_CONST: u16 = 0x21;
+pub const F_LOCLISTX: u16 = 0x22;
+pub const F_RNGLISTX: u16 = 0x23;
+pub const F_REF_SUP8: u16 = 0x24;
+pub const F_STRX1: u16 = 0x25;
+pub const F_STRX2: u16 = 0x26;
+pub const F_STRX3: u16 = 0x27;
+pub const F_STRX4: u16 = 0x28;
+pub const F_ADDRX1: u16 = 0x29;
+pub const F_ADDRX2: u16 = 0x2a;
+pub const F_ADDRX3: u16 = 0x2b;
+pub const F_ADDRX4: u16 = 0x2c;
+pub const F_GNU_ADDR_INDEX: u16 = 0x1f01;
+pub const F_GNU_STR_INDEX: u16 = 0x1f02;
+pub const F_GNU_REF_ALT: u16 = 0x1f20;
+pub const F_GNU_STRP_ALT: u16 = 0x1f21;
+
+/// Every form the model knows (and gimli is documented to accept), with its standard name.
+pub const FORMS: &[(u16, &str)] = &[
+    (F_ADDR, "DW_FORM_addr"),
+    (F_BLOCK2, "DW_FORM_block2"),
+    (F_BLOCK4, "DW_FORM_block4"),
+    (F_DATA2, "DW_FORM_data2"),
+    (F_DATA4, "DW_FORM_data4"),
+    (F_DATA8, "DW_FORM_data8"),
+    (F_STRING, "DW_FORM_string"),
+    (F_BLOCK, "DW_FORM_block"),
+    (F_BLOCK1, "DW_FORM_block1"),
+    (F_DATA1, "DW_FORM_data1"),
+    (F_FLAG, "DW_FORM_flag"),
+    (F_SDATA, "DW_FORM_sdata"),
+    (F_STRP, "DW_FORM_strp"),
+    (F_UDATA, "DW_FORM_udata"),
+    (F_REF_ADDR, "DW_FORM_ref_addr"),
+    (F_REF1, "DW_FORM_ref1"),
+    (F_REF2, "DW_FORM_ref2"),
+    (F_REF4, "DW_FORM_ref4"),
+    (F_REF8, "DW_FORM_ref8"),
+    (F_REF_UDATA, "DW_FORM_ref_udata"),
+    (F_INDIRECT, "DW_FORM_indirect"),
+    (F_SEC_OFFSET, "DW_FORM_sec_offset"),
+    (F_EXPRLOC, "DW_FORM_exprloc"),
+    (F_FLAG_PRESENT, "DW_FORM_flag_present"),
+    (F_STRX, "DW_FORM_strx"),
+    (F_ADDRX, "DW_FORM_addrx"),
+    (F_REF_SUP4, "DW_FORM_ref_sup4"),
+    (F_STRP_SUP, "DW_FORM_strp_sup"),
+    (F_DATA16, "DW_FORM_data16"),
+    (F_LINE_STRP, "DW_FORM_line_strp"),
+    (F_REF_SIG8, "DW_FORM_ref_sig8"),
+    (F_IMPLICIT_CONST, "DW_FORM_implicit_const"),
+    (F_LOCLISTX, "DW_FORM_loclistx"),
+    (F_RNGLISTX, "DW_FORM_rnglistx"),
+    (F_REF_SUP8, "DW_FORM_ref_sup8"),
+    (F_STRX1, "DW_FORM_strx1"),
+    (F_STRX2, "DW_FORM_strx2"),
+    (F_STRX3, "DW_FORM_strx3"),
+    (F_STRX4, "DW_FORM_strx4"),
+    (F_ADDRX1, "DW_FORM_addrx1"),
+    (F_ADDRX2, "DW_FORM_addrx2"),
+    (F_ADDRX3, "DW_FORM_addrx3"),
+    (F_ADDRX4, "DW_FORM_addrx4"),
+    (F_GNU_ADDR_INDEX, "DW_FORM_GNU_addr_index"),
+    (F_GNU_STR_INDEX, "DW_FORM_GNU_str_index"),
+    (F_GNU_REF_ALT, "DW_FORM_GNU_ref_alt"),
+    (F_GNU_STRP_ALT, "DW_FORM_GNU_strp_alt"),
+];
+
+/// Form codes no DWARF version (2-5) nor the GNU extensions define.
+pub const UNKNOWN_FORMS: &[u16] = &[0x2d, 0x30, 0x7f, 0x80, 0x1f00, 0x1f03, 0x1f22, 0x3fff, 0xffff];
+
+pub fn form_name(form: u16) -> &'static str {
+    FORMS.iter().find(|f| f.0 == form).map(|f| f.1).unwrap_or("DW_FORM_<unknown>")
+}
+
+// ------------------------------------------------------------------ attribute names (table 7.5)
+pub const AT_SIBLING: u16 = 0x01;
+pub const AT_LOCATION: u16 = 0x02;
+pub const AT_NAME: u16 = 0x03;
+pub const AT_ORDERING: u16 = 0x09;
+pub const AT_BYTE_SIZE: u16 = 0x0b;
+pub const AT_BIT_OFFSET: u16 = 0x0c;
+pub const AT_BIT_SIZE: u16 = 0x0d;
+pub const AT_STMT_LIST: u16 = 0x10;
+pub const AT_LOW_PC: u16 = 0x11;
+pub const AT_HIGH_PC: u16 = 0x12;
+pub const AT_LANGUAGE: u16 = 0x13;
+pub const AT_VISIBILITY: u16 = 0x17;
+pub const AT_STRING_LENGTH: u16 = 0x19;
+pub const AT_CONST_VALUE: u16 = 0x1c;
+pub const AT_INLINE: u16 = 0x20;
+pub const AT_LOWER_BOUND: u16 = 0x22;
+pub const AT_RETURN_ADDR: u16 = 0x2a;
+pub const AT_START_SCOPE: u16 = 0x2c;
+pub const AT_BIT_STRIDE: u16 = 0x2e;
+pub const AT_UPPER_BOUND: u16 = 0x2f;
+pub const AT_ACCESSIBILITY: u16 = 0x32;
+pub const AT_ADDRESS_CLASS: u16 = 0x33;
+pub const AT_CALLING_CONVENTION: u16 = 0x36;
+pub const AT_COUNT: u16 = 0x37;
+pub const AT_DATA_MEMBER_LOCATION: u16 = 0x38;
+pub const AT_DECL_COLUMN: u16 = 0x39;
+pub const AT_DECL_FILE: u16 = 0x3a;
+pub const AT_DECL_LINE: u16 = 0x3b;
+pub const AT_ENCODING: u16 = 0x3e;
+pub const AT_FRAME_BASE: u16 = 0x40;
+pub const AT_IDENTIFIER_CASE: u16 = 0x42;
+pub const AT_MACRO_INFO: u16 = 0x43;
+pub const AT_SEGMENT: u16 = 0x46;
+pub const AT_STATIC_LINK: u16 = 0x48;
+pub const AT_TYPE: u16 = 0x49;
+pub const AT_USE_LOCATION: u16 = 0x4a;
+pub const AT_VIRTUALITY: u16 = 0x4c;
+pub const AT_VTABLE_ELEM_LOCATION: u16 = 0x4d;
+pub const AT_ALLOCATED: u16 = 0x4e;
+pub const AT_ASSOCIATED: u16 = 0x4f;
+pub const AT_DATA_LOCATION: u16 = 0x50;
+pub const AT_BYTE_STRIDE: u16 = 0x51;
+pub const AT_RANGES: u16 = 0x55;
+pub const AT_CALL_COLUMN: u16 = 0x57;
+pub const AT_CALL_FILE: u16 = 0x58;
+pub const AT_CALL_LINE: u16 = 0x59;
+pub const AT_DECIMAL_SIGN: u16 = 0x5e;
+pub const AT_ENDIANITY: u16 = 0x65;
+pub const AT_RANK: u16 = 0x71;
+pub const AT_STR_OFFSETS_BASE: u16 = 0x72;
+pub const AT_ADDR_BASE: u16 = 0x73;
+pub const AT_RNGLISTS_BASE: u16 = 0x74;
+pub const AT_MACROS: u16 = 0x79;
+pub const AT_CALL_VALUE: u16 = 0x7e;
+pub const AT_CALL_ORIGIN: u16 = 0x7f;
+pub const AT_CALL_TARGET: u16 = 0x83;
+pub const AT_CALL_TARGET_CLOBBERED: u16 = 0x84;
+pub const AT_CALL_DATA_LOCATION: u16 = 0x85;
+pub const AT_CALL_DATA_VALUE: u16 = 0x86;
+pub const AT_LOCLISTS_BASE: u16 = 0x8c;
+pub const AT_GNU_DWO_ID: u16 = 0x2131;
+pub const AT_GNU_RANGES_BASE: u16 = 0x2132;
+pub const AT_GNU_ADDR_BASE: u16 = 0x2133;
+
+/// Attribute names for which `value()` has a normalisation rule (Appendix A.2), with their
+/// standard names (used for the run-time cross-check of the numeric codes).
+pub const NORMALISED_NAMES: &[(u16, &str)] = &[
+    (AT_LOCATION, "DW_AT_location"),
+    (AT_ORDERING, "DW_AT_ordering"),
+    (AT_BYTE_SIZE, "DW_AT_byte_size"),
+    (AT_BIT_OFFSET, "DW_AT_bit_offset"),
+    (AT_BIT_SIZE, "DW_AT_bit_size"),
+    (AT_STMT_LIST, "DW_AT_stmt_list"),
+    (AT_HIGH_PC, "DW_AT_high_pc"),
+    (AT_LANGUAGE, "DW_AT_language"),
+    (AT_VISIBILITY, "DW_AT_visibility"),
+    (AT_STRING_LENGTH, "DW_AT_string_length"),
+    (AT_INLINE, "DW_AT_inline"),
+    (AT_LOWER_BOUND, "DW_AT_lower_bound"),
+    (AT_RETURN_ADDR, "DW_AT_return_addr"),
+    (AT_START_SCOPE, "DW_AT_start_scope"),
+    (AT_BIT_STRIDE, "DW_AT_bit_stride"),
+    (AT_UPPER_BOUND, "DW_AT_upper_bound"),
+    (AT_ACCESSIBILITY, "DW_AT_accessibility"),
+    (AT_ADDRESS_CLASS, "DW_AT_address_class"),
+    (AT_CALLING_CONVENTION, "DW_AT_calling_convention"),
+    (AT_COUNT, "DW_AT_count"),
+    (AT_DATA_MEMBER_LOCATION, "DW_AT_data_member_location"),
+    (AT_DECL_COLUMN, "DW_AT_decl_column"),
+    (AT_DECL_FILE, "DW_AT_decl_file"),
+    (AT_DECL_LINE, "DW_AT_decl_line"),
+    (AT_ENCODING, "DW_AT_encoding"),
+    (AT_FRAME_BASE, "DW_AT_frame_base"),
+    (AT_IDENTIFIER_CASE, "DW_AT_identifier_case"),
+    (AT_MACRO_INFO, "DW_AT_macro_info"),
+    (AT_SEGMENT, "DW_AT_segment"),
+    (AT_STATIC_LINK, "DW_AT_static_link"),
+    (AT_USE_LOCATION, "DW_AT_use_location"),
+    (AT_VIRTUALITY, "DW_AT_virtuality"),
+    (AT_VTABLE_ELEM_LOCATION, "DW_AT_vtable_elem_location"),
+    (AT_ALLOCATED, "DW_AT_allocated"),
+    (AT_ASSOCIATED, "DW_AT_associated"),
+    (AT_DATA_LOCATION, "DW_AT_data_location"),
+    (AT_BYTE_STRIDE, "DW_AT_byte_stride"),
+    (AT_RANGES, "DW_AT_ranges"),
+    (AT_CALL_COLUMN, "DW_AT_call_column"),
+    (AT_CALL_FILE, "DW_AT_call_file"),
+    (AT_CALL_LINE, "DW_AT_call_line"),
+    (AT_DECIMAL_SIGN, "DW_AT_decimal_sign"),
+    (AT_ENDIANITY, "DW_AT_endianity"),
+    (AT_RANK, "DW_AT_rank"),
+    (AT_STR_OFFSETS_BASE, "DW_AT_str_offsets_base"),
+    (AT_ADDR_BASE, "DW_AT_addr_base"),
+    (AT_RNGLISTS_BASE, "DW_AT_rnglists_base"),
+    (AT_MACROS, "DW_AT_macros"),
+    (AT_CALL_VALUE, "DW_AT_call_value"),
+    (AT_CALL_ORIGIN, "DW_AT_call_origin"),
+    (AT_CALL_TARGET, "DW_AT_call_target"),
+    (AT_CALL_TARGET_CLOBBERED, "DW_AT_call_target_clobbered"),
+    (AT_CALL_DATA_LOCATION, "DW_AT_call_data_location"),
+    (AT_CALL_DATA_VALUE, "DW_AT_call_data_value"),
+    (AT_LOCLISTS_BASE, "DW_AT_loclists_base"),
+    (AT_GNU_DWO_ID, "DW_AT_GNU_dwo_id"),
+    (AT_GNU_RANGES_BASE, "DW_AT_GNU_ranges_base"),
+    (AT_GNU_ADDR_BASE, "DW_AT_GNU_addr_base"),
+];
+
+/// Attribute names without a normalisation rule (value() must return the raw value's
+/// payload unchanged): standard names with reference/flag/string/address classes, a few
+/// vendor codes and unassigned codes.
+pub const PLAIN_NAMES: &[u16] = &[
+    0x01, 0x03, 0x11, 0x15, 0x16, 0x18, 0x1a, 0x1b, 0x1c, 0x1d, 0x1e, 0x21, 0x25, 0x27, 0x31, 0x34, 0x35, 0x3c, 0x3d,
+    0x3f, 0x41, 0x44, 0x45, 0x47, 0x49, 0x4b, 0x52, 0x53, 0x54, 0x56, 0x5a, 0x5b, 0x5c, 0x5d, 0x5f, 0x60, 0x61, 0x64,
+    0x69, 0x6b, 0x6e, 0x6f, 0x70, 0x76, 0x87, 0x88, 0x8b, 0x04, 0x8d, 0x2007, 0x2111, 0x2130, 0x3fff, 0x3e02, 0xffff,
+];
+
+/// Names under which `DW_FORM_data4` (32-bit DWARF) / `DW_FORM_data8` (64-bit DWARF) is a
+/// section offset (loclistptr / lineptr / macptr / rangelistptr classes of DWARF 2 and 3).
+pub fn legacy_secoffset_name(name: u16, version: u16) -> bool {
+    match name {
+        AT_LOCATION | AT_STMT_LIST | AT_STRING_LENGTH | AT_RETURN_ADDR | AT_START_SCOPE | AT_FRAME_BASE
+        | AT_MACRO_INFO | AT_MACROS | AT_SEGMENT | AT_STATIC_LINK | AT_USE_LOCATION | AT_VTABLE_ELEM_LOCATION
+        | AT_RANGES => true,
+        AT_DATA_MEMBER_LOCATION => version == 2 || version == 3,
+        _ => false,
+    }
+}
+
+// ------------------------------------------------------------------ layouts and classes
+
+#[derive(Clone, Copy, Debug, PartialEq, Eq)]
+pub enum Layout {
+    /// `n` bytes in the unit's byte order (n = 0 for flag_present)
+    Fixed(usize),
+    Uleb,
+    Sleb,
+    /// length prefix of `n` bytes, then that many bytes
+    BlockN(usize),
+    /// ULEB128 length, then that many bytes
+    BlockUleb,
+    /// bytes up to and including the first NUL
+    CStr,
+    /// ULEB128 form code, then that form
+    Indirect,
+    /// no bytes in the DIE; the value is the SLEB128 stored in the abbreviation
+    ImplicitConst,
+}
+
+/// Layout of `form` in a DIE of a unit with encoding `enc`; `None` for unknown forms.
+pub fn layout(form: u16, enc: Enc) -> Option<Layout> {
+    let word = enc.word() as usize;
+    let addr = enc.addr as usize;
+    Some(match form {
+        F_ADDR => Layout::Fixed(addr),
+        F_BLOCK1 => Layout::BlockN(1),
+        F_BLOCK2 => Layout::BlockN(2),
+        F_BLOCK4 => Layout::BlockN(4),
+        F_BLOCK | F_EXPRLOC => Layout::BlockUleb,
+        F_DATA1 | F_FLAG | F_REF1 | F_STRX1 | F_ADDRX1 => Layout::Fixed(1),
+        F_DATA2 | F_REF2 | F_STRX2 | F_ADDRX2 => Layout::Fixed(2),
+        F_STRX3 | F_ADDRX3 => Layout::Fixed(3),
+        F_DATA4 | F_REF4 | F_REF_SUP4 | F_STRX4 | F_ADDRX4 => Layout::Fixed(4),
+        F_DATA8 | F_REF8 | F_REF_SIG8 | F_REF_SUP8 => Layout::Fixed(8),
+        F_DATA16 => Layout::Fixed(16),
+        F_FLAG_PRESENT => Layout::Fixed(0),
+        F_SEC_OFFSET | F_STRP | F_LINE_STRP | F_STRP_SUP | F_GNU_STRP_ALT | F_GNU_REF_ALT => Layout::Fixed(word),
+        F_REF_ADDR => Layout::Fixed(if enc.version == 2 { addr } else { word }),
+        F_UDATA | F_REF_UDATA | F_STRX | F_GNU_STR_INDEX | F_ADDRX | F_GNU_ADDR_INDEX | F_LOCLISTX | F_RNGLISTX => {
+            Layout::Uleb
+        }
+        F_SDATA => Layout::Sleb,
+        F_STRING => Layout::CStr,
+        F_INDIRECT => Layout::Indirect,
+        F_IMPLICIT_CONST => Layout::ImplicitConst,
+        _ => return None,
+    })
+}
+
+/// The fixed-size table: `Some(n)` iff the encoded size of `form` does not depend on the data.
+pub fn fixed_size(form: u16, enc: Enc) -> Option<usize> {
+    match layout(form, enc)? {
+        Layout::Fixed(n) => Some(n),
+        Layout::ImplicitConst => Some(0),
+        _ => None,
+    }
+}
+
+#[derive(Clone, Copy, Debug, PartialEq, Eq, Hash)]
+pub enum Class {
+    Addr,
+    Block,
+    Data1,
+    Data2,
+    Data4,
+    Data8,
+    Data16,
+    Sdata,
+    Udata,
+    Exprloc,
+    Flag,
+    SecOffset,
+    UnitRef,
+    DebugInfoRef,
+    DebugInfoRefSup,
+    DebugTypesRef,
+    DebugStrRef,
+    DebugStrRefSup,
+    DebugLineStrRef,
+    String,
+    StrOffsetsIndex,
+    AddrIndex,
+    LocListsIndex,
+    RngListsIndex,
+}
+
+/// Value class of (final, non-indirect) `form` under attribute `name` in a unit `enc`.
+pub fn class(form: u16, name: u16, enc: Enc) -> Option<Class> {
+    Some(match form {
+        F_ADDR => Class::Addr,
+        F_BLOCK | F_BLOCK1 | F_BLOCK2 | F_BLOCK4 => Class::Block,
+        F_DATA1 => Class::Data1,
+        F_DATA2 => Class::Data2,
+        F_DATA4 => {
+            if !enc.fmt64 && legacy_secoffset_name(name, enc.version) {
+                Class::SecOffset
+            } else {
+                Class::Data4
+            }
+        }
+        F_DATA8 => {
+            if enc.fmt64 && legacy_secoffset_name(name, enc.version) {
+                Class::SecOffset
+            } else {
+                Class::Data8
+            }
+        }
+        F_DATA16 => Class::Data16,
+        F_UDATA => Class::Udata,
+        F_SDATA | F_IMPLICIT_CONST => Class::Sdata,
+        F_EXPRLOC => Class::Exprloc,
+        F_FLAG | F_FLAG_PRESENT => Class::Flag,
+        F_SEC_OFFSET => Class::SecOffset,
+        F_REF1 | F_REF2 | F_REF4 | F_REF8 | F_REF_UDATA => Class::UnitRef,
+        F_REF_ADDR => Class::DebugInfoRef,
+        F_REF_SUP4 | F_REF_SUP8 | F_GNU_REF_ALT => Class::DebugInfoRefSup,
+        F_REF_SIG8 => Class::DebugTypesRef,
+        F_STRP => Class::DebugStrRef,
+        F_STRP_SUP | F_GNU_STRP_ALT => Class::DebugStrRefSup,
+        F_LINE_STRP => Class::DebugLineStrRef,
+        F_STRING => Class::String,
+        F_STRX | F_STRX1 | F_STRX2 | F_STRX3 | F_STRX4 | F_GNU_STR_INDEX => Class::StrOffsetsIndex,
+        F_ADDRX | F_ADDRX1 | F_ADDRX2 | F_ADDRX3 | F_ADDRX4 | F_GNU_ADDR_INDEX => Class::AddrIndex,
+        F_LOCLISTX => Class::LocListsIndex,
+        F_RNGLISTX => Class::RngListsIndex,
+        _ => return None,
+    })
+}
+
+/// Payload of a value, independent of its class.
+#[derive(Clone, Debug, PartialEq, Eq)]
+pub enum Pay {
+    /// mathematical integer (unsigned classes: the zero-extended bits; Sdata: the signed value)
+    Int(i128),
+    /// 128-bit constant
+    Big(u128),
+    Bytes(Vec<u8>),
+    Flag(bool),
+}
+
+#[derive(Clone, Debug, PartialEq, Eq)]
+pub struct MVal {
+    pub class: Class,
+    pub pay: Pay,
+}
+
+#[derive(Clone, Copy, Debug, PartialEq, Eq)]
+pub enum Reject {
+    /// DW_FORM_implicit_const reached through DW_FORM_indirect
+    IndirectImplicitConst,
+    /// form code not defined by DWARF 2-5 / GNU
+    UnknownForm,
+}
+
+#[derive(Clone, Debug, PartialEq, Eq)]
+pub enum Expect {
+    Val(MVal),
+    Reject(Reject),
+}
+
+// ------------------------------------------------------------------ numeric accessors
+
+/// `udata_value()`: the unsigned reading of a constant.  `Some(Some(v))` = must be `Some(v)`,
+/// `Some(None)` = must be `None`.
+pub fn model_udata(v: &MVal) -> Option<u64> {
+    match (v.class, &v.pay) {
+        (Class::Data1 | Class::Data2 | Class::Data4 | Class::Data8 | Class::Udata, Pay::Int(i)) => Some(*i as u64),
+        (Class::Sdata, Pay::Int(i)) => {
+            if *i >= 0 {
+                Some(*i as u64)
+            } else {
+                None
+            }
+        }
+        _ => None,
+    }
+}
+
+/// `sdata_value()`: the signed (two's complement at the form's width) reading of a constant.
+pub fn model_sdata(v: &MVal) -> Option<i64> {
+    match (v.class, &v.pay) {
+        (Class::Data1, Pay::Int(i)) => Some(sign_extend(*i as u64, 8)),
+        (Class::Data2, Pay::Int(i)) => Some(sign_extend(*i as u64, 16)),
+        (Class::Data4, Pay::Int(i)) => Some(sign_extend(*i as u64, 32)),
+        (Class::Data8, Pay::Int(i)) => Some(sign_extend(*i as u64, 64)),
+        (Class::Sdata, Pay::Int(i)) => Some(*i as i64),
+        (Class::Udata, Pay::Int(i)) => {
+            if *i <= i64::MAX as i128 {
+                Some(*i as i64)
+            } else {
+                None
+            }
+        }
+        _ => None,
+    }
+}
+
+pub fn sign_extend(v: u64, bits: u32) -> i64 {
+    if bits >= 64 {
+        return v as i64;
+    }
+    let m = 1u64 << (bits - 1);
+    let low = v & ((1u64 << bits) - 1);
+    if low & m != 0 {
+        (low | !((1u64 << bits) - 1)) as i64
+    } else {
+        low as i64
+    }
+}
+
+pub fn model_u8(v: &MVal) -> Option<u8> {
+    model_udata(v).and_then(|x| if x <= 0xff { Some(x as u8) } else { None })
+}
+pub fn model_u16(v: &MVal) -> Option<u16> {
+    model_udata(v).and_then(|x| if x <= 0xffff { Some(x as u16) } else { None })
+}
+/// `offset_value()`: only section offsets.
+pub fn model_offset(v: &MVal) -> Option<u64> {
+    match (v.class, &v.pay) {
+        (Class::SecOffset, Pay::Int(i)) => Some(*i as u64),
+        _ => None,
+    }
+}
+/// `exprloc_value()`: the bytes of an exprloc or of a block.
+pub fn model_exprloc(v: &MVal) -> Option<Vec<u8>> {
+    match (v.class, &v.pay) {
+        (Class::Exprloc | Class::Block, Pay::Bytes(b)) => Some(b.clone()),
+        _ => None,
+    }
+}
+
+// ------------------------------------------------------------------ value() normalisation (variant: secondary)
+
+/// Name of the `AttributeValue` variant that `value()` is expected to return for raw value
+/// `v` under attribute `name` (Appendix A.2).  The *payload* must always equal the raw
+/// payload; the variant is compared as a secondary observation only.
+pub fn norm_variant(name: u16, v: &MVal) -> &'static str {
+    let raw = raw_variant(v.class);
+    let is_block = matches!(v.class, Class::Block | Class::Exprloc);
+    let is_off = v.class == Class::SecOffset;
+    let ud = model_udata(v);
+    let exprloc = |fallback: &'static str| if is_block { "Exprloc" } else { fallback };
+    match name {
+        AT_LOCATION | AT_STRING_LENGTH | AT_RETURN_ADDR | AT_FRAME_BASE | AT_SEGMENT | AT_STATIC_LINK
+        | AT_USE_LOCATION | AT_VTABLE_ELEM_LOCATION => {
+            if is_block {
+                "Exprloc"
+            } else if is_off {
+                "LocationListsRef"
+            } else {
+                raw
+            }
+        }
+        AT_DATA_MEMBER_LOCATION => {
+            if ud.is_some() {
+                "Udata"
+            } else if is_block {
+                "Exprloc"
+            } else if is_off {
+                "LocationListsRef"
+            } else {
+                raw
+            }
+        }
+        AT_STMT_LIST => if is_off { "DebugLineRef" } else { raw },
+        AT_RANGES | AT_START_SCOPE => if is_off { "RangeListsRef" } else { raw },
+        AT_MACRO_INFO => if is_off { "DebugMacinfoRef" } else { raw },
+        AT_MACROS => if is_off { "DebugMacroRef" } else { raw },
+        AT_STR_OFFSETS_BASE => if is_off { "DebugStrOffsetsBase" } else { raw },
+        AT_ADDR_BASE | AT_GNU_ADDR_BASE => if is_off { "DebugAddrBase" } else { raw },
+        AT_RNGLISTS_BASE | AT_GNU_RANGES_BASE => if is_off { "DebugRngListsBase" } else { raw },
+        AT_LOCLISTS_BASE => if is_off { "DebugLocListsBase" } else { raw },
+        AT_LOWER_BOUND | AT_UPPER_BOUND | AT_COUNT | AT_ALLOCATED | AT_ASSOCIATED | AT_DATA_LOCATION | AT_RANK
+        | AT_CALL_VALUE | AT_CALL_ORIGIN | AT_CALL_TARGET | AT_CALL_TARGET_CLOBBERED | AT_CALL_DATA_LOCATION
+        | AT_CALL_DATA_VALUE => exprloc(raw),
+        AT_BYTE_SIZE | AT_BIT_OFFSET | AT_BIT_SIZE | AT_BIT_STRIDE | AT_BYTE_STRIDE => {
+            if ud.is_some() {
+                "Udata"
+            } else {
+                exprloc(raw)
+            }
+        }
+        AT_DECL_COLUMN | AT_DECL_LINE | AT_CALL_COLUMN | AT_CALL_LINE | AT_HIGH_PC => {
+            if ud.is_some() {
+                "Udata"
+            } else {
+                raw
+            }
+        }
+        AT_DECL_FILE | AT_CALL_FILE => if ud.is_some() { "FileIndex" } else { raw },
+        AT_GNU_DWO_ID => if ud.is_some() { "DwoId" } else { raw },
+        AT_LANGUAGE => if model_u16(v).is_some() { "Language" } else { raw },
+        AT_ADDRESS_CLASS => if ud.is_some() { "AddressClass" } else { raw },
+        AT_ORDERING => if model_u8(v).is_some() { "Ordering" } else { raw },
+        AT_VISIBILITY => if model_u8(v).is_some() { "Visibility" } else { raw },
+        AT_INLINE => if model_u8(v).is_some() { "Inline" } else { raw },
+        AT_ACCESSIBILITY => if model_u8(v).is_some() { "Accessibility" } else { raw },
+        AT_CALLING_CONVENTION => if model_u8(v).is_some() { "CallingConvention" } else { raw },
+        AT_ENCODING => if model_u8(v).is_some() { "Encoding" } else { raw },
+        AT_IDENTIFIER_CASE => if model_u8(v).is_some() { "IdentifierCase" } else { raw },
+        AT_VIRTUALITY => if model_u8(v).is_some() { "Virtuality" } else { raw },
+        AT_DECIMAL_SIGN => if model_u8(v).is_some() { "DecimalSign" } else { raw },
+        AT_ENDIANITY => if model_u8(v).is_some() { "Endianity" } else { raw },
+        _ => raw,
+    }
+}
+
+/// Variant name of gimli's `AttributeValue` that carries raw class `c`.
+pub fn raw_variant(c: Class) -> &'static str {
+    match c {
+        Class::Addr => "Addr",
+        Class::Block => "Block",
+        Class::Data1 => "Data1",
+        Class::Data2 => "Data2",
+        Class::Data4 => "Data4",
+        Class::Data8 => "Data8",
+        Class::Data16 => "Data16",
+        Class::Sdata => "Sdata",
+        Class::Udata => "Udata",
+        Class::Exprloc => "Exprloc",
+        Class::Flag => "Flag",
+        Class::SecOffset => "SecOffset",
+        Class::UnitRef => "UnitRef",
+        Class::DebugInfoRef => "DebugInfoRef",
+        Class::DebugInfoRefSup => "DebugInfoRefSup",
+        Class::DebugTypesRef => "DebugTypesRef",
+        Class::DebugStrRef => "DebugStrRef",
+        Class::DebugStrRefSup => "DebugStrRefSup",
+        Class::DebugLineStrRef => "DebugLineStrRef",
+        Class::String => "String",
+        Class::StrOffsetsIndex => "DebugStrOffsetsIndex",
+        Class::AddrIndex => "DebugAddrIndex",
+        Class::LocListsIndex => "DebugLocListsIndex",
+        Class::RngListsIndex => "DebugRngListsIndex",
+    }
+}
+
+// ------------------------------------------------------------------ observation glue (gimli -> model vocabulary)
+
+/// What gimli reported for one value, in the model's vocabulary.
+#[derive(Clone, Debug, PartialEq, Eq)]
+pub struct OVal {
+    /// name of the `AttributeValue` variant
+    pub variant: &'static str,
+    /// raw class if the variant is one of the raw (non-normalised) classes
+    pub class: Option<Class>,
+    pub pay: Pay,
+}
+
+fn rbytes<R: gimli::Reader>(r: &R) -> Vec<u8> {
+    r.to_slice().map(|c| c.to_vec()).unwrap_or_default()
+}
+
+fn off<T: gimli::ReaderOffset>(t: T) -> Pay {
+    Pay::Int(t.into_u64() as i128)
+}
+
+/// Translate an `AttributeValue` (no decoding happens here).
+pub fn observe<R: gimli::Reader>(av: &gimli::AttributeValue<R>) -> OVal {
+    use gimli::AttributeValue as A;
+    let (variant, class, pay) = match av {
+        A::Addr(a) => ("Addr", Some(Class::Addr), Pay::Int(*a as i128)),
+        A::Block(r) => ("Block", Some(Class::Block), Pay::Bytes(rbytes(r))),
+        A::Data1(x) => ("Data1", Some(Class::Data1), Pay::Int(*x as i128)),
+        A::Data2(x) => ("Data2", Some(Class::Data2), Pay::Int(*x as i128)),
+        A::Data4(x) => ("Data4", Some(Class::Data4), Pay::Int(*x as i128)),
+        A::Data8(x) => ("Data8", Some(Class::Data8), Pay::Int(*x as i128)),
+        A::Data16(x) => ("Data16", Some(Class::Data16), Pay::Big(*x)),
+        A::Sdata(x) => ("Sdata", Some(Class::Sdata), Pay::Int(*x as i128)),
+        A::Udata(x) => ("Udata", Some(Class::Udata), Pay::Int(*x as i128)),
+        A::Exprloc(e) => ("Exprloc", Some(Class::Exprloc), Pay::Bytes(rbytes(&e.0))),
+        A::Flag(b) => ("Flag", Some(Class::Flag), Pay::Flag(*b)),
+        A::SecOffset(o) => ("SecOffset", Some(Class::SecOffset), off(*o)),
+        A::DebugAddrBase(b) => ("DebugAddrBase", None, off(b.0)),
+        A::DebugAddrIndex(i) => ("DebugAddrIndex", Some(Class::AddrIndex), off(i.0)),
+        A::UnitRef(o) => ("UnitRef", Some(Class::UnitRef), off(o.0)),
+        A::DebugInfoRef(o) => ("DebugInfoRef", Some(Class::DebugInfoRef), off(o.0)),
+        A::DebugInfoRefSup(o) => ("DebugInfoRefSup", Some(Class::DebugInfoRefSup), off(o.0)),
+        A::DebugLineRef(o) => ("DebugLineRef", None, off(o.0)),
+        A::LocationListsRef(o) => ("LocationListsRef", None, off(o.0)),
+        A::DebugLocListsBase(o) => ("DebugLocListsBase", None, off(o.0)),
+        A::DebugLocListsIndex(o) => ("DebugLocListsIndex", Some(Class::LocListsIndex), off(o.0)),
+        A::DebugMacinfoRef(o) => ("DebugMacinfoRef", None, off(o.0)),
+        A::DebugMacroRef(o) => ("DebugMacroRef", None, off(o.0)),
+        A::RangeListsRef(o) => ("RangeListsRef", None, off(o.0)),
+        A::DebugRngListsBase(o) => ("DebugRngListsBase", None, off(o.0)),
+        A::DebugRngListsIndex(o) => ("DebugRngListsIndex", Some(Class::RngListsIndex), off(o.0)),
+        A::DebugTypesRef(s) => ("DebugTypesRef", Some(Class::DebugTypesRef), Pay::Int(s.0 as i128)),
+        A::DebugStrRef(o) => ("DebugStrRef", Some(Class::DebugStrRef), off(o.0)),
+        A::DebugStrRefSup(o) => ("DebugStrRefSup", Some(Class::DebugStrRefSup), off(o.0)),
+        A::DebugStrOffsetsBase(o) => ("DebugStrOffsetsBase", None, off(o.0)),
+        A::DebugStrOffsetsIndex(o) => ("DebugStrOffsetsIndex", Some(Class::StrOffsetsIndex), off(o.0)),
+        A::DebugLineStrRef(o) => ("DebugLineStrRef", Some(Class::DebugLineStrRef), off(o.0)),
+        A::String(r) => ("String", Some(Class::String), Pay::Bytes(rbytes(r))),
+        A::Encoding(x) => ("Encoding", None, Pay::Int(x.0 as i128)),
+        A::DecimalSign(x) => ("DecimalSign", None, Pay::Int(x.0 as i128)),
+        A::Endianity(x) => ("Endianity", None, Pay::Int(x.0 as i128)),
+        A::Accessibility(x) => ("Accessibility", None, Pay::Int(x.0 as i128)),
+        A::Visibility(x) => ("Visibility", None, Pay::Int(x.0 as i128)),
+        A::Virtuality(x) => ("Virtuality", None, Pay::Int(x.0 as i128)),
+        A::Language(x) => ("Language", None, Pay::Int(x.0 as i128)),
+        A::AddressClass(x) => ("AddressClass", None, Pay::Int(x.0 as i128)),
+        A::IdentifierCase(x) => ("IdentifierCase", None, Pay::Int(x.0 as i128)),
+        A::CallingConvention(x) => ("CallingConvention", None, Pay::Int(x.0 as i128)),
+        A::Inline(x) => ("Inline", None, Pay::Int(x.0 as i128)),
+        A::Ordering(x) => ("Ordering", None, Pay::Int(x.0 as i128)),
+        A::FileIndex(x) => ("FileIndex", None, Pay::Int(*x as i128)),
+        A::DwoId(x) => ("DwoId", None, Pay::Int(x.0 as i128)),
+    };
+    OVal { variant, class, pay }
+}
